@@ -94,8 +94,17 @@ def ndbc(rng, d, style="realtime", directional=True, minutes=True):
     t0 = _t0(rng)
     times = np.array([t0 + np.timedelta64(int(k) * 3600 + (int(rng.integers(0, 6)) * 600 if minutes else 0), "s") for k in rng.permutation(nt)])
     c11 = 10 ** rng.uniform(-3, 1.5, (nt, nf))
+    if rng.random() < 0.35:
+        # storm-size and round densities that print as runs of nines (99.00, 9.99, 0.99): ordinary values, not NDBC's 999.00 flag
+        for _ in range(int(rng.integers(1, 4))):
+            c11[rng.integers(nt), rng.integers(nf)] = float(rng.choice([99.0, 9.99, 0.99, 99.99, 90.0]))
     a1, a2 = rng.uniform(0, 360, (nt, nf)), rng.uniform(0, 360, (nt, nf))
     r1, r2 = rng.uniform(0, 0.95, (nt, nf)), rng.uniform(0, 0.6, (nt, nf))
+    if rng.random() < 0.35:
+        a1[rng.integers(nt), rng.integers(nf)] = 99.0
+        a2[rng.integers(nt), rng.integers(nf)] = 0.0
+        r1[rng.integers(nt), rng.integers(nf)] = 0.0
+        r2[rng.integers(nt), rng.integers(nf)] = 0.0
     fields = {"spec": ("%.3f" if style == "realtime" else "%.2f", c11), "swdir": ("%.1f", a1), "swdir2": ("%.1f", a2), "swr1": ("%.2f", r1), "swr2": ("%.2f", r2)}
     truth = {"time": times.astype("datetime64[m]" if minutes else "datetime64[h]"), "freq": f}
     paths = []
